@@ -19,14 +19,14 @@ def claim(pid, technique, text, ref, note=''):
 claim('C01', 'interprocedural must-check / fail-closed gate analysis on SSA (edge cuts on the CFG x soft-failure-bit product) + label provenance',
       'Static, all-paths: every non-skip success exit of (*verifier).Verify / VerifyBlob (found through the interfaces they implement) is reachable only through the passing edges of envelope parsing, '
       'signature verification, payload-type equality, payload decode, descriptor equality (OCI) or algorithm lookup + generator + digest/size/media-type equality (blob) and the required-metadata check; '
-      'failures stored in outcome.Error are sticky; integrity is enforce in every non-skip level literal and cannot be overridden. This is a necessary structural condition of the property for every envelope, '
+      'failures stored in outcome.Error are sticky; integrity is enforce in every non-skip level literal and cannot be overridden; no map update, delete or clear on the verification call tree targets a map of the caller (the required metadata checked for one signature is what is checked for the next). This is a necessary structural condition of the property for every envelope, '
       'descriptor, metadata map and level at once; it does not establish cryptographic validity (trusted: notation-core-go).', 'DESIGN.md 2/C01')
 
 claim('C02', 'typestate + must-check gate analysis on SSA, finite decision table of the predicate, who-may-read inventories, constant-table order',
       'Static, all-paths: the critical-failure predicate is exactly Action==enforce && Error!=nil; every validation result appended to the outcome (and every later store to its Error) is gated by that predicate on all '
       'paths to success; each result carries the action of its own type from the applicable level; overrides go into a fresh map behind the legality gates; every plugin situation (missing, too old, no capability, '
       'execution error, missing/failed verdict) is fail-closed; native identity/revocation checks are routed by capability and skip; critical extended attributes are accounted for when no plugin is named and when the '
-      'plugin ran. The path "plugin named but not executed" is a known finding pinned by a stable test. Clause-wise structure implies the decision table and monotonicity; the table is not enumerated as values.', 'DESIGN.md 2/C02')
+      'plugin ran: the list the plugin must process leaves an attribute out only for being one of the two header constants, and a critical attribute whose key is not a string fails verification. The path "plugin named but not executed" is a known finding pinned by a stable test. Clause-wise structure implies the decision table and monotonicity; the table is not enumerated as values.', 'DESIGN.md 2/C02')
 
 claim('C03', 'who-may-call inventory + effect-site gate analysis + provenance by access-path labels on SSA',
       'Static, all-paths: the trust store is read at exactly one product site; that site is reachable only for listed stores whose type prefix equals the wanted type, with the name taken from the listed entry; '
@@ -48,7 +48,7 @@ claim('C06', 'must-check gate analysis with operand provenance + finite decision
       'countersignature present, token parse, info, message imprint over SignerInfo.Signature, tsa stores (loaded by the tsa loader, non-empty, the only roots), token verification at the timestamp, timestamping chain rules, both bounded window tests '
       'for every signing certificate and revocation of the TSA chain. Which clock/operand each comparison uses is decided; RFC 3161 verification and equal-instant behaviour are trusted.', 'DESIGN.md 2/C06')
 claim('C07', 'reader/writer type agreement + constant-table equality + abstract interpretation of codec functions (repo and dependency) + provenance',
-      'Static: every decode of a verified payload targets *envelope.Payload (what both signers marshal) or a generic map; notation.VerifyBlob and UserMetadata return fields of the payload decoded from the verified outcome; the signer and verifier hash->digest '
+      'Static: every decode of a verified payload targets *envelope.Payload (what both signers marshal) or a generic map, into a fresh variable (json.Unmarshal keeps what the input omits); notation.VerifyBlob and UserMetadata return fields of the payload decoded from the verified outcome; the signer and verifier hash->digest '
       'tables are equal and cover the hashes core-go binds to the six key specs; proto.HashAlgorithmFromKeySpec equals core-go KeySpec.SignatureAlgorithm().Hash() on all six (both interpreted abstractly); Encode/DecodeKeySpec are inverse; '
       'payload = Payload{Sanitize(desc)} with exactly four fields copied, the accepted content-type constant is the one written, expiry = SigningTime+duration only if non-zero, blob digest algorithm from the key spec with fail-closed miss. '
       'These are necessary agreement conditions of the round trip; the round trip itself (cryptography, encoders) is not decidable statically.', 'DESIGN.md 2/C07')
@@ -65,7 +65,7 @@ claim('C09', 'rule-slot inventory of fail-closed gates (per-exit and per-iterati
       'which validates every non-nil document; the file-name validator accepts no separator, NUL, empty or dot-only name. Decides the "only if" direction (every listed rule is enforced); completeness of the list against the specification is not decided.', 'DESIGN.md 2/C09')
 
 claim('C10', 'effect-site gates across a closure (captured cells resolved to the outer allocation), per-iteration guards, typestate of the counter cell, reachability after the success edge',
-      'Static, all-paths: every repository call is cut by the nil checks, the positive limit and (for skippers) skip == false; parse/empty/resolve/digest-pinning failures are fail-closed and listing/verification use the resolved descriptor; '
+      'Static, all-paths: every repository call is cut by the nil checks, the positive limit and (for skippers) skip == false, and every product type that has the probed skip method by name implements the probed interface (the probe cannot silently miss the library\'s own verifier); parse/empty/resolve/digest-pinning failures are fail-closed and listing/verification use the resolved descriptor; '
       'the attempt counter is one cell of the outer function starting at 0 and changed only by a single +1 in the callback, tested against the caller\'s MaxSignatureAttempts before each fetch and verify of the same iteration; after a successful '
       'verification no fetch, verification, iteration or nil return is reachable and the stored outcomes are exactly that outcome; fetch errors and nil outcomes end the callback with an error; the success exit needs the flag and a non-zero counter. '
       'Holds per callback invocation and for the shared cell, hence for every paging; behaviour of concrete repositories is trusted.', 'DESIGN.md 2/C10')
@@ -73,7 +73,7 @@ claim('C10', 'effect-site gates across a closure (captured cells resolved to the
 claim('C11', 'interprocedural ownership/origin analysis of every write on the signing call tree + argument provenance + effect-site gates',
       'Static, all-paths: every map update, element store and store through a pointer reachable from SignOCI/SignBlob (closures included) targets fresh or signer-owned storage, never storage reachable from the caller\'s options or from the descriptor '
       'Repository.Resolve returned; Signer.Sign gets merge(resolved descriptor, UserMetadata), PushSignature gets the caller\'s media type, Sign\'s bytes, the resolved descriptor itself as subject and annotations generated from Sign\'s SignerInfo '
-      '(hex sha256 of every chain certificate, signing time); digest pinning on the very string resolved, reserved-prefix and existing-key refusals and the merge error gate precede Sign; the repository is used for exactly one Resolve and one PushSignature. '
+      '(hex sha256 of every chain certificate, signing time, and nothing written into the returned map afterwards can replace them); digest pinning on the very string resolved, reserved-prefix and existing-key refusals and the merge error gate precede Sign; the repository is used for exactly one Resolve and one PushSignature. '
       'Necessary conditions for "signing twice succeeds twice" for every descriptor, metadata map and reference; repository and signer internals are trusted.', 'DESIGN.md 2/C11')
 
 claim('C12', 'panic-site inventory with local discharge proofs (guards, filter/producer summaries, correlated nil-check tracking) + outcome/error consistency + size-cap gates + error-discipline lint',
@@ -90,7 +90,7 @@ claim('C13', 'must-check gates per exit and per completed loop iteration + certi
 
 claim('C14', 'typestate of the temp-file protocol + who-may-write inventory + parameter-use confinement + constant analysis (key / temp alphabets)',
       'Static: decides the structural preconditions under which POSIX rename makes an entry absent-or-complete — the entry is written only by a writer that creates a fresh file with os.CreateTemp in the cache root, writes the whole content, closes, '
-      'then renames it over Join(root, key(url)), each step only after the previous succeeded, the destination path reaching nothing but Rename; nothing else in verifier/crl mutates files; keys are the full hex SHA-256 of the URL and temp names contain a non-hex rune; '
+      'then renames it over Join(root, key(url)), each step only after the previous succeeded, the destination path reaching nothing but Rename; the bytes handed to the writer belong to the call alone (never a view of a pooled or shared buffer); nothing else in verifier/crl mutates files; keys are the full hex SHA-256 of the URL and temp names contain a non-hex rune; '
       'the reader performs exactly one whole-file read per Get. This is the clause the record\'s own mutation (in-place write) breaks. NOT decided: the interleavings and crash points themselves, which are reduced to the trusted atomicity of rename(2) within one directory; no durability claim.', 'DESIGN.md 2/C14',
       'The hook proposed in the property record (pausing WriteFile at step boundaries) belongs to a dynamic technique and is not used.')
 claim('C15', 'reader/writer field agreement + must-check gates (incl. disjunctive delta gates) + path provenance (URL confinement) on SSA',
@@ -104,15 +104,15 @@ claim('C16', 'taint analysis with certified sanitizers (regexp/syntax certificat
       'DirEntry type. Holds for every name string at once; also analysed under GOOS=windows in the thorough tier. What the OS does with a validated single component is trusted.', 'DESIGN.md 2/C16')
 claim('C17', 'typestate of the exec.Cmd object (dominating unconditional stores) + must-check gates + guarded error-mapping table + who-may-call',
       'Static: decides the structural preconditions of containment — the only process start is exec.CommandContext with the caller\'s context; before Run, unconditionally, Stdout and Stderr are the module\'s limited writer with a positive constant cap, WaitDelay is a positive constant '
-      'and Stdin is the request; the limited writer forwards only with N > 0, at most N bytes, and decrements N; the runner succeeds only on process success and a whole-buffer json.Unmarshal of stdout; the three failure mappings and all metadata gates (incl. name == plugin name) are fail-closed. '
+      'and Stdin is the request; the limited writer forwards only with a positive remaining budget, at most that budget, and accounts every forwarded byte (remaining counter or written counter); the runner succeeds only on process success and a whole-buffer json.Unmarshal of stdout; the three failure mappings and all metadata gates (incl. name == plugin name) are fail-closed. '
       'NOT decided: real timing and memory, which follow from os/exec semantics (trusted).', 'DESIGN.md 2/C17')
 
 claim('C18', 'must-check gates per success exit (composed through helpers, parameter-substituted) + per-iteration loop gates + returned-value provenance + request-field stores + decision tables',
-      'Static, all-paths: the envelope path (the function calling SignPlugin.GenerateEnvelope) returns success only through plugin success, response type == requested type, ParseEnvelope of the response bytes, Envelope.Verify, payload type, payload decode, '
+      'Static, all-paths: the envelope path (the function calling SignPlugin.GenerateEnvelope) returns success only through plugin success, response type == requested type, ParseEnvelope of the response bytes, Envelope.Verify, payload type, payload decode into a fresh variable, '
       'content.Equal(requested descriptor, signed target), the completed preservation loop over the REQUESTED annotations (comma-ok lookup and value equality per pair) and an empty unknown-field scan of the verified bytes (scan removes only ocispec.Descriptor JSON names, reports both levels, '
       'key-set helper unconditional); it returns exactly the parsed-and-verified bytes and the verified SignerInfo and stores plugin annotations only after all checks; the raw path accepts describe-key / generate-signature answers only under string equality of the key id, '
       'sends key id, EncodeKeySpec/HashAlgorithmFromKeySpec of the described spec and the payload, parses every certificate fail-closed, and the generic signer returns only after Envelope.Sign, Envelope.Verify on the same object and the payload-type check; Sign/SignBlob return only those results, chosen by capability; '
-      'codec tables total and inverse. Consistency of key, chain and signature is trusted to notation-core-go Sign/Verify.', 'DESIGN.md 2/C18')
+      'codec tables total and inverse; no type assertion, index or slice expression of the signer package can panic on plugin output. Consistency of key, chain and signature is trusted to notation-core-go Sign/Verify.', 'DESIGN.md 2/C18')
 
 claim('C19', 'effect-site gates (size cap on the fetched descriptor, per loop iteration) + must-check gates per exit and per media-type branch + decode-target freshness + reader/writer agreement (config media type) + argument/option provenance on SSA',
       'Static, all-paths: decides the structural clauses of the round-trip property — every content.FetchAll of the registry package is reachable only through a positive constant cap on the very descriptor it fetches; FetchSignatureBlob returns the fetch of the looked-up descriptor, '
